@@ -192,7 +192,7 @@ def _check(nr, nc, obs, msk, nodata, cost, out, src, dst, tol):
             if out[i] != obs[i] or src[i] != i or dst[i] != 0:
                 return ("spread:observation-changed", f"cell {i}: {out[i]} {src[i]} {dst[i]}")
         elif i in dist:
-            if abs(dst[i] - dist[i]) > tol * max(1.0, dist[i]):
+            if not (abs(dst[i] - dist[i]) <= tol * max(1.0, dist[i])):      # (a NaN distance fails too)
                 return ("spread:not-least-cost", f"cell {i}: distance {dst[i]} but the least cost is {dist[i]}")
             s = src[i]
             if not (0 <= s < n) or obs[s] == nodata or not ok[s] or out[i] != obs[s]:
@@ -210,6 +210,8 @@ def _float(call):
     from affine import Affine
     rng = random.Random(call["seed"])
     nr, nc = rng.randint(2, 7), rng.randint(2, 7)
+    if rng.random() < 0.25:      # a single row or a single column (round-6 seed: cell sizes taken from differences of cell centres)
+        nr, nc = rng.choice([(1, rng.randint(2, 8)), (rng.randint(2, 8), 1)])
     n = nr * nc
     if call["what"] == "geo":
         yres = rng.choice([-1.0, -0.5, 1.0, 0.25])
